@@ -17,7 +17,9 @@ RULE = (
     "Two physical cells sharing a facet (triangle, quadrilateral, tetrahedron, hexahedron; affine, random geometry) in every "
     "pair of local vertex numberings (36 triangle pairs, 64 quadrilateral pairs, 576 tetrahedron pairs - sampled in the quick "
     "tier -, sampled hexahedron pairs of the 48x48), Hypothesis grammar-generated dS functionals and linear forms over Lagrange/DG "
-    "spaces (scalar and vector) with polynomial global fields sampled at each cell's nodes in that cell's local ordering. "
+    "spaces (scalar and vector) with polynomial global fields sampled at each cell's nodes in that cell's local ordering; coefficients "
+    "also in lowest-order N1curl/N2curl/RT/BDM spaces (simplices), their dofs obtained per cell by interpolating a physical field of the space "
+    "through that cell's own geometry and numbering. "
     "Convention-free oracle: (1) for every numbering pair the probe kernel of |x('+')-x('-')|^2 dS must vanish for at least one "
     "pair of permutation codes (the coinciding codes M); (2) for all numbering pairs and all code pairs in M the kernel result, "
     "mapped back to physical nodes, equals the reference evaluator's value for the base numbering with codes (0,0) (code 0 is "
@@ -27,7 +29,7 @@ RULE = (
 )
 P_FORMS = {"cells": ["triangle", "quadrilateral", "tetrahedron", "hexahedron"], "measures": ["dS"], "arities": [0, 0, 1], "max_integrals": 2,
            "depth": 1, "maxdeg": 2, "max_qdeg": 4, "min_qdeg": 2, "manifold": 0.0, "nonaffine": 0.0, "affine_only": True, "ncoef": (1, 3),
-           "element_tags": ["P", "DG", "vecP", "vecDG"], "geo": ["x", "n"], "p_scheme": 0.0, "p_vertex": 0.0, "ids": "few", "p_multiterm": 0.0,
+           "element_tags": ["P", "DG", "vecP", "vecDG"], "coef_element_tags": [["N1curl", 1], ["RT", 1], ["BDM", 1], ["N2curl", 1]], "geo": ["x", "n"], "p_scheme": 0.0, "p_vertex": 0.0, "ids": "few", "p_multiterm": 0.0,
            "nconst": (0, 1)}
 NCODES = {"triangle": 2, "quadrilateral": 2, "tetrahedron": 6, "hexahedron": 8}
 
@@ -121,6 +123,56 @@ def node_positions(element, Pverts, cell):
     return T @ Pverts
 
 
+PIOLA = {"N1curl": "covariant", "N2curl": "covariant", "RT": "contravariant", "BDM": "contravariant"}
+
+
+def piola_kind(el):
+    fam = getattr(getattr(el, "_element", None), "family", None)
+    name = getattr(fam, "name", "")
+    return {"N1E": "covariant", "N2E": "covariant", "RT": "contravariant", "BDM": "contravariant"}.get(name)
+
+
+def piola_field(seed, k, el, gdim):
+    """A physical vector field that lies in the (lowest-order) Piola-mapped space `el` on every affine cell."""
+    rng = inputs.rng_for(seed, 1900 + k)
+    a = inputs.f32(rng.uniform(-1, 1, size=gdim))
+    name = el._element.family.name
+    if name in ("BDM", "N2E"):  # full P1^d
+        B = inputs.f32(rng.uniform(-1, 1, size=(gdim, gdim)))
+    elif name == "RT":  # a + b x
+        B = float(inputs.f32(rng.uniform(-1, 1))) * np.eye(gdim)
+    else:  # N1curl: a + S x with S skew-symmetric
+        R = inputs.f32(rng.uniform(-1, 1, size=(gdim, gdim)))
+        B = R - R.T
+    return lambda x: a[None, :] + np.atleast_2d(x) @ B.T
+
+
+def piola_dofs(el, Pverts, field, kind):
+    """Dofs of the interpolant of `field` on the affine simplex with vertices Pverts (basix reference interpolation of the pull-back)."""
+    be = el._element
+    X = np.asarray(be.points)
+    M = np.asarray(be.interpolation_matrix)
+    J = np.array([Pverts[i + 1] - Pverts[0] for i in range(Pverts.shape[1])]).T
+    x = Pverts[0][None, :] + X @ J.T
+    u = field(x)  # (npts, gdim)
+    if kind == "covariant":
+        uh = u @ J  # (J^T u)^T
+    else:
+        uh = np.linalg.det(J) * (u @ np.linalg.inv(J).T)  # (detJ K u)^T
+    dofs = M @ uh.T.reshape(-1)
+    # self-test of the construction: the interpolant reproduces the field (it lies in the space)
+    Xq = np.full((1, X.shape[1]), 1.0 / (X.shape[1] + 2)) + 0.05 * np.arange(X.shape[1])[None, :]
+    T = np.asarray(be.tabulate(0, Xq))[0]  # (1, ndofs*vs) or (1, ndofs, vs)
+    T = T.reshape(1, be.dim, -1)
+    ref = np.einsum("d,pdc->pc", dofs, T)
+    K = np.linalg.inv(J)
+    phys = ref @ K if kind == "covariant" else (ref @ J.T) / np.linalg.det(J)
+    want = field(Pverts[0][None, :] + Xq @ J.T)
+    if not np.allclose(phys, want, atol=1e-9 * (1 + np.abs(want).max())):
+        raise RuntimeError(f"harness: Piola interpolation does not reproduce the field ({kind}): {phys} vs {want}")
+    return dofs
+
+
 class Setup:
     def __init__(self, fr, cell, seed):
         self.fr = fr
@@ -135,7 +187,10 @@ class Setup:
             deg = min(int(el.embedded_subdegree), 2)
             ncomp = int(np.prod(el.reference_value_shape)) if el.reference_value_shape else 1
             # one polynomial per side: the functions may be discontinuous across the facet
-            self.fields[f] = [poly_field(seed, 2 * k + r, deg, self.tdim, ncomp) for r in range(2)]
+            if piola_kind(el):
+                self.fields[f] = [piola_field(seed, 2 * k + r, el, self.tdim) for r in range(2)]
+            else:
+                self.fields[f] = [poly_field(seed, 2 * k + r, deg, self.tdim, ncomp) for r in range(2)]
         self.consts = {c: inputs.coefficient_values(inputs.rng_for(seed, 77 + i), int(np.prod(c.ufl_shape)) if c.ufl_shape else 1, False)
                        for i, c in enumerate(built.consts)}
 
@@ -148,6 +203,11 @@ class Setup:
             el = f.ufl_function_space().ufl_element()
             vals = []
             for r in range(2):
+                if piola_kind(el):
+                    # Piola-mapped coefficient: per-cell interpolation of a physical field of the space through the cell's own
+                    # geometry and numbering (no global dof orientation is needed: each side has its own dofs)
+                    vals.append(piola_dofs(el, Ps[r], fields[r], piola_kind(el)))
+                    continue
                 pos = node_positions(el, Ps[r], self.cell)
                 v = fields[r](pos)  # (nodes, ncomp)
                 vals.append(v.reshape(-1))  # blocked layout: node-major, component fastest
@@ -304,7 +364,7 @@ def _by_node(vec, element, Ps, cell):
 @st.composite
 def flag_family(draw):
     """Two dS integrals with different rules in one subdomain: one couples both sides, the other is one-sided (either order)."""
-    spec = draw(strategies.form_specs(dict(P_FORMS, arities=[0], max_integrals=1, ncoef=(2, 2), element_tags=["P", "DG"], nconst=(0, 0))))
+    spec = draw(strategies.form_specs(dict(P_FORMS, arities=[0], max_integrals=1, ncoef=(2, 2), element_tags=["P", "DG"], nconst=(0, 0), coef_element_tags=None)))
     X, Y = ["f", 0], ["f", 1]
     two = ["mul", ["+", X], ["-", Y]]
     one = ["mul", [draw(st.sampled_from(["+", "-"])), X], ["+", Y]] if draw(st.booleans()) else ["+", X]
@@ -339,13 +399,13 @@ def shard(shard, nshards, n, max_pairs, seed):
 
 def run(tier: str) -> int:
     run_ = Run(PROP, tier, "exploration", RULE)
-    n, max_pairs = (3, 64) if tier == "quick" else (30, 600)
+    n, max_pairs = (4, 64) if tier == "quick" else (30, 600)
     for part in run_shards(shard, 16, n=n, max_pairs=max_pairs, seed=verif_seed()):
         run_.merge(part)
     run_.assumptions = [
         "code 0 is the identity permutation (the only convention used); coinciding codes are found through the kernel itself",
         "the same physical functions in every numbering: polynomial fields within the element space sampled at physical node positions",
-        "arguments/coefficients restricted to Lagrange/DG (global dof = physical node); Piola-mapped traces are judged under C02",
+        "arguments restricted to Lagrange/DG (global dof = physical node); Piola-mapped coefficients (N1curl/N2curl/RT/BDM degree 1) by per-cell interpolation",
     ]
     return run_.finish()
 
